@@ -75,6 +75,25 @@ def damages(a, pa, pb, thorough, trunc):
     return out
 
 
+def match_crafts(a, pa, pb):
+    """re-sealed sources for zck_find_matching_chunks: an entry that carries a target chunk's digests but another length"""
+    out = []
+    body = a[pa.header_len:]
+    real = [i for i, c in enumerate(pa.chunks) if c.clen > 0]
+    entries = sorted(set([0] + real[:2]))
+    for x, cx in enumerate(pb.chunks):
+        for i in entries:
+            ci = pa.chunks[i]
+            for du in (1, -1, 64):
+                if cx.ulen + du < 0:
+                    continue
+                ud = cx.udigest if (cx.udigest is not None and len(cx.udigest) == len(ci.udigest or b"")) else ci.udigest
+                dg = cx.digest if len(cx.digest) == len(ci.digest) else ci.digest
+                h = clone_header(pa); h.chunks[i] = Chunk(dg, ci.clen, cx.ulen + du, ud)
+                out.append(("mcraft%d-on-entry%d-ulen%+d" % (x, i, du), h.build() + body))
+    return out
+
+
 def judge_copy(pb, ext, before_flags, t0, after_flags, t1, src_triples):
     if isinstance(t1, core.HashedBlob):
         return "target-length-changed", "%d -> %d bytes" % (len(t0), t1.declared_len)
@@ -226,7 +245,8 @@ def run(ctx):
     cfgs = [Cfg(0, b"", 0, 3, 1), Cfg(2, b"", 0, 3, 1)] + ([Cfg(2, D, 0, 3, 1)] if thorough else [])
     specs = [(w, c) for c in cfgs for w in wl]
     extra = [("ab", Cfg(2, D, 0, 3, 1)), ("ab", Cfg(2, D2, 0, 3, 1)), ("ab", Cfg(0, b"", 0, 1, 1)), ("aab", Cfg(2, D, 0, 3, 1)),
-             ("abc", Cfg(2, b"", 1, 1, 1)), ("abc", Cfg(0, b"", 1, 1, 1)), ("cab", Cfg(0, b"", 1, 1, 1)), ("cab", Cfg(2, b"", 1, 1, 1))]
+             ("abc", Cfg(2, b"", 1, 1, 1)), ("abc", Cfg(0, b"", 1, 1, 1)), ("cab", Cfg(0, b"", 1, 1, 1)), ("cab", Cfg(2, b"", 1, 1, 1)),
+             ("ab", Cfg(2, D, 1, 1, 1)), ("ab", Cfg(0, D[:32], 1, 1, 1)), ("ab", Cfg(0, D, 1, 1, 1)), ("ab", Cfg(2, D[:32], 1, 1, 1))]
     files = dict(zip([(w, c.name()) for w, c in specs + extra], universe.lib_files(specs + extra, ctx.seed)))
     jobs = []
     npairs = 0
@@ -271,15 +291,22 @@ def run(ctx):
     cross = []
     X = lambda w, c: files[(w, c.name())]
     zD, zD2, n1, zU, nU = Cfg(2, D, 0, 3, 1), Cfg(2, D2, 0, 3, 1), Cfg(0, b"", 0, 1, 1), Cfg(2, b"", 1, 1, 1), Cfg(0, b"", 1, 1, 1)
+    zDU, nDsU, nDU, zDsU = Cfg(2, D, 1, 1, 1), Cfg(0, D[:32], 1, 1, 1), Cfg(0, D, 1, 1, 1), Cfg(2, D[:32], 1, 1, 1)
     for (bw, bc), (aw, ac) in [(("ab", zD), ("ab", zD2)), (("ab", zD2), ("ab", zD)), (("ab", cfgs[0]), ("ab", n1)), (("ab", n1), ("ab", cfgs[0])),
                                (("ab", cfgs[0]), ("ab", cfgs[1])), (("ab", cfgs[1]), ("ab", cfgs[0])),
                                (("abc", zU), ("abc", nU)), (("abc", nU), ("abc", zU)), (("abc", zU), ("cab", nU)), (("cab", nU), ("abc", zU)),
-                               (("abc", zU), ("cab", zU)), (("abc", zU), ("ab", cfgs[1])), (("aab", zD), ("ab", zD))]:
+                               (("abc", zU), ("cab", zU)), (("abc", zU), ("ab", cfgs[1])), (("aab", zD), ("ab", zD)),
+                               # uncompressed-source files with dictionaries of different and of equal sizes, across compression types
+                               (("ab", zDU), ("ab", nDsU)), (("ab", nDsU), ("ab", zDU)), (("ab", zDU), ("ab", nDU)), (("ab", nDU), ("ab", zDU)),
+                               (("ab", zDU), ("ab", zDsU)), (("ab", nDU), ("ab", nDsU))]:
         b, a = X(bw, bc), X(aw, ac)
         pb = zckref.parse(b)
         mk = marks(pb, thorough)
-        cross.append(("%s:%s" % (bw, bc.name()), b, [("%s:%s:intact" % (aw, ac.name()), a, "-", None,
-                                                      [(m, "c1") for m in mk] + [(mk[0], "m1"), (mk[0], "m1,m1"), (mk[0], "c1,c1")])]))
+        groups = [("%s:%s:intact" % (aw, ac.name()), a, "-", None,
+                   [(m, "c1") for m in mk] + [(mk[0], "m1"), (mk[0], "m1,m1"), (mk[0], "c1,c1")])]
+        for dn, da in match_crafts(a, zckref.parse(a), pb):
+            groups.append(("%s:%s:%s" % (aw, ac.name(), dn), da, "-", None, [(mk[0], "m1"), (mk[0], "c1")]))
+        cross.append(("%s:%s" % (bw, bc.name()), b, groups))
     ctx.bounds = {"words": "<= 3 letters over %s" % alpha, "configurations": [c.name() for c in cfgs], "pairs": npairs,
                   "target_markings": "every subset of chunks valid", "sequences": "c1 | c1,c1 | c1,c2 | c2,c1 | m1 | m1,m2"}
     ctx.rule = "case = (target marking, source with damage, call sequence); non-trivial = case in which a copy changed a chunk's marking"
